@@ -6,6 +6,7 @@ package main
 // has no interleavings; what is checked is the clause of the property, which does not depend on any order.
 
 import (
+	dbsql "database/sql"
 	"encoding/json"
 	"fmt"
 	"sync"
@@ -82,6 +83,46 @@ func c10Concurrent(c *Ctx, l *lib.Lean, admin string) error {
 	}
 	if wrongly > 0 {
 		r.fail(fmt.Sprintf("a never-issued token was not refused %d times while other tokens were being created and revoked", wrongly), "401 ErrInvalidAccessToken", "", "c10-unknown-token-accepted-while-others-change")
+	}
+	return nil
+}
+
+// c10CommitBlocked: a revocation whose COMMIT cannot happen (another connection keeps a read cursor open on the tokens
+// table past SQLite's busy timeout). Whatever the endpoint answers: after a revocation answered with success the token
+// must be refused — and if the endpoint reports failure, the token is simply still valid. Never "revoked" + still valid.
+func c10CommitBlocked(c *Ctx, l *lib.Lean, admin string) error {
+	r := &c10Run{c: c, l: l, file: lib.TempDB("c10-commit.db"), admin: admin, live: map[string]bool{}, kinds: map[string]bool{}}
+	if err := r.open(); err != nil {
+		return err
+	}
+	defer r.close()
+	adminHdr := "Bearer " + admin
+	_, resp := r.httpDo("POST", c09Prefix+"/access", adminHdr, true)
+	var tok struct {
+		Token string `json:"token"`
+	}
+	if resp.Status != 200 || json.Unmarshal([]byte(resp.Body), &tok) != nil || tok.Token == "" {
+		return nil
+	}
+	rd, err := dbsql.Open("sqlite3", "file:"+r.file)
+	if err != nil {
+		return nil
+	}
+	defer rd.Close()
+	rd.SetMaxOpenConns(1)
+	cur, err := rd.Query("SELECT token FROM tokens")
+	if err != nil {
+		return nil
+	}
+	cur.Next() // cursor stays open: shared lock
+	_, del := r.httpDo("DELETE", c09Prefix+"/access/"+tok.Token, adminHdr, true)
+	cur.Close()
+	after := r.authGet("Bearer " + tok.Token)
+	c.R.OracleChecked++
+	c.R.Count("revocation whose COMMIT is blocked by a reader", 1)
+	if del.Status >= 200 && del.Status < 300 && after == "pass user" {
+		r.fail("DELETE /api/v1/access/<token> answered success while its COMMIT could not happen: the token still authenticates", "an error answer, or the token refused afterwards",
+			fmt.Sprintf("DELETE -> %d %s; afterwards the token -> %s", del.Status, del.Body, after), "c10-revocation-reported-but-not-effective")
 	}
 	return nil
 }
